@@ -1,5 +1,6 @@
 """C15 — discretionary cleaning: real UpdateableNode.update_delete vs Lean selectDelete vs property oracle."""
 import json
+import os
 
 import common
 import env as envmod
@@ -86,6 +87,96 @@ def run_real(e, stype, avail_k, min_k, rows, pend):
     return node, other
 
 
+def stage_passes(ctx, n):
+    """several main-loop passes on a real node whose free space (scripted statvfs) follows the files actually deleted: the
+    cleaning of removable copies is driven by the free space measured in the same pass, stops once the minimum is met, and
+    is minimal over the whole run"""
+    import alpenhorn.daemon.update as upd
+    import world as worldmod
+    from alpenhorn.scheduler import FairMultiFIFOQueue
+    rng = ctx.rng
+    GiB = 2 ** 30
+    real_statvfs = os.statvfs
+    with envmod.Env() as e:
+        for it in range(n):
+            w = worldmod.World(e)
+            db = w.db
+            for m in (db.StorageTransferAction, db.ArchiveFileCopyRequest, db.ArchiveFileImportRequest, db.ArchiveFileCopy,
+                      db.ArchiveFile, db.ArchiveAcq, db.StorageNode, db.StorageGroup):
+                m.delete().execute()
+            import shutil
+            shutil.rmtree(os.path.join(e.tmp, "roots"), ignore_errors=True)
+            gf, ga, gb = w.group("gf"), w.group("ga"), w.group("gb")
+            minimum = rng.choice([5, 10])
+            node = w.node("fld", gf, stype="F", min_kib=minimum * 2 ** 20)
+            a1, a2 = w.node("a1", ga, stype="A"), w.node("a2", gb, stype="A")
+            acq = w.acq("acq")
+            sizes = {}
+            nfiles = rng.randint(3, 7)
+            for i in range(nfiles):
+                f = w.file(acq, f"f{i}.dat", b"x" * (i + 1), size=rng.choice([1, 1, 2]) * GiB)
+                w.copy(f, node, has="Y", wants=rng.choice("MMMY"), size_b=f.size_b)
+                w.copy(f, a1, has="Y")
+                w.copy(f, a2, has="Y")
+                sizes[f.id] = f.size_b
+            base_free = int((minimum - rng.choice([0.5, 1.5, 2.5, -1])) * GiB)       # -1: already above the minimum
+
+            class SV:
+                def __init__(self, b):
+                    self.f_bavail, self.f_bsize = b, 1
+
+            def free_now():
+                gone = sum(sizes[c.file_id] for c in db.ArchiveFileCopy.select().where(db.ArchiveFileCopy.node == node.id)
+                           if w.file_on(node, db.ArchiveFile.get(id=c.file_id)) is None)
+                return base_free + gone
+
+            def fake_statvfs(path):
+                if str(path).rstrip("/") == node.root.rstrip("/"):
+                    return SV(free_now())
+                return real_statvfs(path)
+            os.statvfs = fake_statvfs
+            deleted_per_pass = []
+            try:
+                e.set_host("h1")
+                q = FairMultiFIFOQueue()
+                un = upd.UpdateableNode(q, db.StorageNode.get(id=node.id))
+                for p in range(4):
+                    un.reinit(db.StorageNode.get(id=node.id))
+                    before = set(c.id for c in db.ArchiveFileCopy.select().where(db.ArchiveFileCopy.node == node.id, db.ArchiveFileCopy.has_file == "Y"))
+                    un.update()
+                    item = q.get(timeout=0.001)
+                    while item is not None:
+                        item[0](); q.task_done(item[1]); item = q.get(timeout=0.001)
+                    after = set(c.id for c in db.ArchiveFileCopy.select().where(db.ArchiveFileCopy.node == node.id, db.ArchiveFileCopy.has_file == "Y"))
+                    deleted_per_pass.append(sorted(before - after))
+                final_free = free_now()
+            finally:
+                os.statvfs = real_statvfs
+            removable_left = db.ArchiveFileCopy.select().where(db.ArchiveFileCopy.node == node.id, db.ArchiveFileCopy.has_file == "Y",
+                                                               db.ArchiveFileCopy.wants_file == "M").count()
+            all_deleted = [c for p_ in deleted_per_pass for c in p_]
+            ctx.count(f"passes:deleted={min(len(all_deleted), 3)}")
+            ctx.case(("passes", minimum, base_free, tuple(sorted(sizes.values())), tuple(map(tuple, deleted_per_pass))), nontrivial=bool(all_deleted),
+                     sample={"minimum_GiB": minimum, "free_GiB_at_start": base_free / GiB, "deleted_per_pass": deleted_per_pass,
+                             "free_GiB_at_end": final_free / GiB} if all_deleted and len(ctx.samples) < 6 else None)
+            need0 = minimum * GiB - base_free
+            if need0 <= 0 and all_deleted:
+                ctx.violation("passes:needless", f"free space {base_free / GiB} GiB was above the minimum {minimum} GiB but removable copies "
+                              f"{all_deleted} were deleted", {"kind": "passes", "deleted_per_pass": deleted_per_pass})
+            if need0 > 0:
+                if final_free < minimum * GiB and removable_left:
+                    ctx.violation("passes:not-cleaned", f"after 4 passes the node is still below its minimum ({final_free / GiB} < {minimum} GiB) "
+                                  f"with {removable_left} removable copies left", {"kind": "passes", "deleted_per_pass": deleted_per_pass})
+                if all_deleted:
+                    last = all_deleted[-1]
+                    last_size = sizes[db.ArchiveFileCopy.get(id=last).file_id]
+                    if final_free - last_size >= minimum * GiB:
+                        ctx.violation("passes:too-many", f"cleaning went on after the minimum was met: shortfall {need0 / GiB} GiB, deleted per pass "
+                                      f"{deleted_per_pass} (sizes GiB {[sizes[db.ArchiveFileCopy.get(id=c).file_id] // GiB for c in all_deleted]}), "
+                                      f"free at the end {final_free / GiB} GiB; without the last deletion the node would already be at "
+                                      f"{(final_free - last_size) / GiB} GiB", {"kind": "passes", "deleted_per_pass": deleted_per_pass})
+
+
 def run(ctx):
     ok = common.proof_stage(ctx, MODULE)
     import alpenhorn.daemon.update as upd
@@ -144,6 +235,7 @@ def run(ctx):
             ctx.violation("sel:" + probs[0][:50].replace(" ", "_"), probs[0],
                           {"kind": "seldel", "node_type": stype, "avail_KiB": avail_k, "min_KiB": min_k, "rows": rows,
                            "pending": pend, "batches": batches, "problems": probs})
+    stage_passes(ctx, 120 if ctx.quick() else 3000)
     ctx.coverage["rule"] = ("random copy tables (0..25 rows; has in YMXN, wants in YMN; sizes on copy/file/neither/zero), node types A/T/F, "
                             "free space known/unknown vs minimum, pending/cancelled/completed/foreign requests; the real update_delete "
                             "runs with io.delete recorded; compared with the Lean model's batches and judged by an oracle written from "
